@@ -96,7 +96,14 @@ def djs_maskinterp(yval, mask, xval=None, axis=None, const=False):
             raise ValueError('Must set axis if yval has more than one dimension.')
         if axis < 0 or axis > ndim-1 or axis - int(axis) != 0:
             raise ValueError('Invalid axis value.')
-        ynew = np.zeros(yval.shape, dtype=yval.dtype)
+        #
+        # Interpolated values are not whole numbers: integer input gives a
+        # double-precision result, as in the one-dimensional case.
+        #
+        if yval.dtype.kind == 'f':
+            ynew = np.zeros(yval.shape, dtype=yval.dtype)
+        else:
+            ynew = np.zeros(yval.shape, dtype='d')
         if ndim == 2:
             if xval is None:
                 if axis == 0:
